@@ -147,6 +147,28 @@ non-trivial = the call returned Some(_); distinct = distinct request lines".into
         let p1 = pick_params(&mut rng); let p2 = pick_params(&mut rng);
         twice(ctx, v, p1, p2);
     }
+    // the approximation as its callers request it: `fit` / `try_fraction` of quantities (numbers and ranges, also ones that
+    // change unit) under the per-unit limits of two converters; the model takes the limits from the units files by the
+    // documented layering (unit > quantity > system > all), independently of the code
+    {
+        use crate::props::c09::{alt_world, bundled_world, quantity_case, random_quantity, QOp};
+        use cooklang::quantity::{Quantity, Value};
+        let n_q = if ctx.thorough { 60_000 } else { 1_500 };
+        for (wi, w) in [Some(bundled_world()), alt_world()].into_iter().flatten().enumerate() {
+            let mut r = rng.fork(100 + wi as u64);
+            for (v, u) in [((24.0, 30.0), "tsp"), ((1.5, 2.5), "kg"), ((0.25, 0.75), "cup"), ((7.5, 7.5), "tsp"), ((0.3125, 0.3125), "tsp"), ((3.5, 4.25), "kg")] {
+                if w.conv.find_unit(u).is_none() { continue; }
+                let val = if v.0 == v.1 { Value::Number(Number::Regular(v.0)) } else { Value::Range { start: Number::Regular(v.0), end: Number::Regular(v.1) } };
+                let q = Quantity::new(val, Some(u.to_string()));
+                quantity_case(ctx, &w, &q, QOp::Fit, None); quantity_case(ctx, &w, &q, QOp::TryFraction, None);
+            }
+            for _ in 0..n_q {
+                let q = random_quantity(&mut r, &w);
+                quantity_case(ctx, &w, &q, if r.chance(1, 2) { QOp::Fit } else { QOp::TryFraction }, None);
+            }
+            ctx.count("quantities-through-fit/try_fraction");
+        }
+    }
     // log grid and random
     let n_rand = if ctx.thorough { 3_000_000 } else { 40_000 };
     for i in 0..n_rand {
